@@ -51,7 +51,8 @@ func (c Collection) TryEqual(other Collection) (bool, bool) {
 			return false, true
 		}
 		if !okOne {
-			return true, true
+			// equal complex pair: keep comparing the remaining pairs
+			continue
 		}
 		primitiveOne, err := From(c[i])
 		if err != nil {
